@@ -116,6 +116,7 @@ def run(db, chk) -> None:
     _predicates(db, chk, m, preds, DFb)
     _composite(db, chk, m)
     _string_detection(db, chk)
+    _table_precedence(db, chk, m)
     for q, f_ in m.functions.items():
         sm = H.shared_state_mutations(m, f_)
         if sm or q.endswith("__call__") or "." not in q:
@@ -260,3 +261,34 @@ def _string_detection(db, chk):
         chk.ob("C18.R6-string-detection", f"{mn}:{q} recognises string columns by a dtype test that accepts object, str and string dtypes", bool(good) and not bad, mod.loc(f),
                found={"accepted_idioms": good, "rejected_idioms": bad}, accepted="pd.api.types.is_string_dtype(col) | dtype.kind in {'O','U','T'}",
                why="equality with object fails for pandas' str dtype: NameFilter on decoded names then returns every row (F5)", key=f"{mn}:{q.split('.')[0]}|dtype-eq-object")
+
+
+def _table_precedence(db, chk, m):
+    """Filter contract f(df, symbol_table): the table that comes WITH the frame decides how its ids decode; a table stored in the filter object
+    is only a fallback.  Decided for the filters that can hold a table of their own (NameFilter, MemCopyEventFilter)."""
+    rule = "C18.R7-table-precedence"
+    st = db.mod("hta.common.trace_symbol_table")
+    DF = ("param", "DF")
+    for cls, attrs in (("NameFilter", {"name_pattern": T.P("PATTERN"), "name_column": None}), ("MemCopyEventFilter", {"memory_copy_type": T.P("COPYTYPE")})):
+        I = Interp(db)
+        call = I.find_method((m, cls), "__call__")
+        if call is None:
+            chk.ob(rule, f"{cls}.__call__ found", None, TF)
+            continue
+        ctor_tab, call_tab = Obj("CTOR_TABLE", cls=(st, "TraceSymbolTable")), Obj("CALL_TABLE", cls=(st, "TraceSymbolTable"))
+        runs = I.explore(f"{call.mod.name}:{call.qualname}", lambda I: {"self": Obj("self", cls=(m, cls), attrs=dict(attrs, symbol_table=ctor_tab)), "df": Frame(DF), "symbol_table": call_tab})
+        runs = [r for r in runs if r.raised is None and isinstance(r.ret, Frame)]
+        uses = set()
+        for r in runs:
+            txt = T.show(r.ret.rows) if r.ret.base == DF else ""
+            for e in r.events:
+                if e["kind"] in ("filter",) and e.get("pred") is not None:
+                    txt += T.show(e["pred"])
+            if "CTOR_TABLE" in txt:
+                uses.add("constructor table")
+            if "CALL_TABLE" in txt:
+                uses.add("call-time table")
+        verdict = (uses == {"call-time table"}) if uses else None
+        chk.ob(rule, f"{cls}: when a table is passed with the frame, ids are decoded with THAT table (a table held by the filter is only the fallback)", verdict, m.loc(call.node), found=sorted(uses) or "no table-dependent predicate seen",
+               accepted="call-time table", why="`self.symbol_table or symbol_table` lets a filter built for trace X decode the ids of trace Y with X's table: unrelated names are selected")
+    chk.floor(rule, 1)
